@@ -238,6 +238,9 @@ func judgeRoundTrip(c reqCase) (inf astInfo, err error) {
 	if d := idl.Diff(req, got, nil); d != "" {
 		return inf, fmt.Errorf("decoded request differs from the encoded one: %s", d)
 	}
+	if d := shapeDiff(req, got); d != "" {
+		return inf, fmt.Errorf("decoded request differs from the encoded one: %s", d)
+	}
 	return inf, nil
 }
 
@@ -311,6 +314,9 @@ func judgeCompress(c reqCase) (inf astInfo, err error) {
 		return inf, err
 	}
 	if d := idl.Diff(want, got, nil); d != "" {
+		return inf, fmt.Errorf("request decoded from the compressed form differs from the original: %s", d)
+	}
+	if d := shapeDiff(want, got); d != "" {
 		return inf, fmt.Errorf("request decoded from the compressed form differs from the original: %s", d)
 	}
 	if err := guard("decompressThriftInclude", func() error { plugin.VerifDecompressThriftInclude(ast); return nil }); err != nil {
@@ -1006,6 +1012,8 @@ func judgeE2E(c e2eCase) (inf e2eInfo, err error) {
 		if s := idl.Diff(want.AST, got, nil); s != "" {
 			return inf, fmt.Errorf("%s: AST differs from the compiler's own (compiler vs plugin): %s\n  %s", where, s, cmdline)
 		}
+		// (which union member of an empty `[]` / `{}` constant is set is compared by the in-process
+		// halves only: the recording plugin reports through JSON, which drops empty slices)
 	}
 
 	// warnings of every well-formed answer are shown
